@@ -250,6 +250,10 @@ func (p Prop) Run(ci interface{}, focus *core.Violation) *core.Outcome {
 		}
 		return true
 	}
+	if v := base.HungViolation(); v != nil {
+		viol(v.Class, v.Key+"|no_fault", v.Detail, base, nil)
+		return out
+	}
 	if l := base.Leak(); l != "" {
 		if viol("leak", c.Op.Kind+"|no_fault", "fault-free run left resources behind: "+l, base, nil) {
 			return out
@@ -325,6 +329,10 @@ func (p Prop) Run(ci interface{}, focus *core.Violation) *core.Outcome {
 			return out
 		}
 		out.Runs++
+		if v := sr.HungViolation(); v != nil {
+			viol(v.Class, v.Key+"|"+f.Short(), fmt.Sprintf("with [%s]: %s", f, v.Detail), sr, f)
+			return out
+		}
 		fired := f.Fired(sr)
 		kind := "hook_err"
 		if f.Hook != nil && f.Hook.Panic {
